@@ -496,6 +496,11 @@ func (v *Verifier) verifyFunc(fn *ssa.Function, fc *FuncContract, em *Emitter, g
 				return fx, toolLimit("contract of %s: call site %s#%d not found", fx.relName(), cs.Callee, cs.Ordinal)
 			}
 		}
+		for _, ss := range fc.Stores {
+			if !fx.usedCallSites[ss] {
+				return fx, toolLimit("contract of %s: store site %s#%d not found", fx.relName(), ss.Callee, ss.Ordinal)
+			}
+		}
 	}
 	return fx, nil
 }
